@@ -139,8 +139,20 @@ class Predicates(_Base):
         p = dict(quoted=bool(tok.is_quoted_string()), nondecimal=bool(tok.is_non_decimal()),
                  decimal=bool(tok.is_decimal()), numeric=bool(tok.is_numeric()), datetime=bool(tok.is_datetime()),
                  simple=bool(tok.is_simple_value()), unquoted=bool(tok.is_unquoted_string()),
-                 string=bool(tok.is_string()), pname=bool(tok.is_parameter_name()))
+                 string=bool(tok.is_string()), pname=bool(tok.is_parameter_name()),
+                 begin=bool(tok.is_begin_aggregation()), endstmt=bool(tok.is_end_statement()),
+                 comment=bool(tok.is_comment()), delim=bool(tok.is_delimiter()))
+        # the words that are "not a value" in this dialect, from the specifications (ISIS has no BEGIN_ forms)
+        begins = ("group", "object") + (() if self.dialect == "ISIS" else ("begin_group", "begin_object"))
+        folded = s.casefold()
+        is_begin_kw = any(bool(folded == w) for w in begins)
+        not_value = p["begin"] or p["endstmt"] or p["comment"] or p["delim"]
         conds = [
+            p["begin"] == is_begin_kw,
+            # one class only: a block keyword, END, a comment or a delimiter is never also a value or a parameter name
+            # (is_unquoted_string is the purely lexical test and is true for keywords as well: not part of this)
+            not (not_value and (p["pname"] or p["simple"] or p["quoted"] or p["numeric"] or p["datetime"])),
+            not (p["begin"] and p["endstmt"]),
             p["quoted"] == st["quoted"], p["nondecimal"] == st["nondecimal"], p["decimal"] == st["decimal"],
             p["datetime"] == st["datetime"], p["simple"] == st["simple"],
             p["numeric"] == (st["nondecimal"] or st["decimal"]),
